@@ -1234,7 +1234,7 @@ def rule_sum(ctx, o):
     call = ("call", cname(t), tuple(ctx.an.terms.operand(a) for a in t["args"]), o.bb)
     p = ctx.sy.poly(call)
     nm = ctx.sy.name(call)
-    bx = ctx.sy.sym_box.get(nm)
+    bx = getattr(ctx.sy, "sum_ranges", {}).get(nm)      # only a range computed from count x element range counts
     if bx is None or bx[0] is None or bx[1] is None:
         return False, "no bound on the sum (element count or element range unknown)"
     if bx[0] >= rng[0] and bx[1] <= rng[1]:
@@ -1534,6 +1534,11 @@ def call_contexts(prog, fn, depth=0):
     for caller in sorted(prog.callers().get(fn, ())):
         cb = prog.bodies.get(caller)
         if cb is None:
+            return None
+        # the function used as a value (`.map(helper)`, stored in a variable) can be called with anything
+        import json as _json
+        blob = _json.dumps([blk["s"] for blk in cb.blocks]) + _json.dumps([blk["t"].get("args") for blk in cb.blocks if blk["t"].get("k") == "call"])
+        if ('"fn": "%s"' % fn) in blob or ('"fn_resolved": "%s"' % fn) in blob:
             return None
         cctx = Ctx(prog, cb)
         cctx._in_context = True
